@@ -28,6 +28,8 @@ def explore(ctx, depth):
     cells = [c for case in cases for c in gen.all_cells(case.adoc)]
     for c, r in zip(cells, ctx.driver.ask([{'op': 'abs.tokof', 'cell': gen.clean(c)} for c in cells])):
         c['_enc'], c['_cat'] = r['tok']['enc'], r['tok']['cat']
+        if c.get('k') == 'chord' and '_text' in c:
+            c['_enc'] = c['_text']      # a chord token's text is the cell as written (the generator writes some chords without separating spaces)
     own = {'**text': 29, '**dynam': 26, '**dyn': 26, '**harm': 27, '**mxhm': 27, '**fing': 28}
     for case in cases:
         if case.doc is None:
@@ -101,7 +103,7 @@ def explore(ctx, depth):
         g = call(lambda: case.doc.get_metacomments())
         if g != {'ok': com}:
             ctx.fail({'text': case.text, 'clause': 'comments'}, "the comment query does not return the '!!' lines in order", impl=g, expected=com)
-        for key in ('COM', 'OTL', 'voices', 'ONB', 'XYZ'):
+        for key in ('COM', 'OTL', 'voices', 'ONB', 'XYZ', 'com', 'Com', 'OTL@@DE', 'otl', 'ENC', 'enc', 'VOICES', 'RDF**kern'):
             g = call(lambda: case.doc.get_metacomments(KeyComment=key))
             want = [c for c in com if c.startswith('!!!' + key)]
             ctx.seen({'text': case.text, 'key': key, 'clause': 'comments by key'}, bool(want))
@@ -116,6 +118,16 @@ def explore(ctx, depth):
         ctx.seen({'text': case.text, 'clause': 'monophonic'}, False)
         if g != {'ok': want}:
             ctx.fail({'text': case.text, 'clause': 'is_monophonic'}, 'is_monophonic is not: one **kern spine, no chord, at least one note or rest', impl=g, expected=want)
+
+    # scores without a single note or rest (templates: clef, meter, barlines, null cells, lyrics): never monophonic; with one rest or note: monophonic
+    for text, want in (('**kern\n*clefG2\n*M4/4\n=1\n.\n=2\n*-\n', False), ('**kern\t**text\n*clefG2\t*\n=1\t=1\n.\tla\n=2\t=2\n*-\t*-\n', False),
+                       ('**kern\t**dynam\n*\t*\n*-\t*-\n', False), ('**kern\n*-\n', False), ('**kern\t**text\n*clefG2\t*\n=1\t=1\n4r\tla\n*-\t*-\n', True),
+                       ('**kern\n*clefG2\n4zz#\n*-\n', False), ('**kern\t**text\n.\tla\n4c\t.\n*-\t*-\n', True), ('**kern\t**kern\n.\t.\n*-\t*-\n', False)):
+        g = call(lambda: kp.is_monophonic(kp.loads(text)[0]))
+        ctx.seen({'text': text, 'clause': 'monophonic (scores without notes)'}, True)
+        if g != {'ok': want}:
+            ctx.fail({'text': text, 'clause': 'is_monophonic (scores without notes)'}, 'is_monophonic is not: one **kern spine, no chord, at least one note or rest',
+                     impl=g, expected=want)
 
 
     long_listing(ctx)
